@@ -29,6 +29,9 @@ func TestVerifC02Seq(t *testing.T) {
 			if op[0] == "collectx" || op[0] == "tickx" || op[0] == "flushx" {
 				cfg.hooks = true
 			}
+			if op[0] == "ovltf" || op[0] == "ovlff" {
+				cfg.producers = true
+			}
 		}
 		s := c02New(cfg)
 		defer s.close()
@@ -48,11 +51,111 @@ func TestVerifC02Seq(t *testing.T) {
 			return func() {}
 		}
 		atoi := func(x string) int { n, _ := strconv.Atoi(x); return n }
-		for i, op := range ops {
+		// overlapped performs `first` (an interval export or a ForceFlush that parks in reader r's external Producer:
+		// collected, not yet exported), then Add(j, a, v), then ForceFlush while the first is still parked. ForceFlush is
+		// served by the run loop, so on this tree it waits for the first export whatever the load; if it completes while
+		// the first is still parked it did not go through the run loop (the records then show the inversion).
+		overlapped := func(i, r int, first func(), j, a int, v int64) {
+			g := c02NewGate()
+			s.prods[r].set(g)
+			s.mu.Lock()
+			s.seqStamps = []int{i, i + 2}
+			s.mu.Unlock()
+			firstDone, secondDone := make(chan struct{}), make(chan struct{})
+			go func() { first(); close(firstDone) }()
+			select {
+			case <-g.parked:
+			case <-firstDone: // nothing to park in (should not happen: the reader is alive and has the producer)
+			case <-time.After(20 * time.Second):
+				status(i, r, "hang")
+			}
+			if j < len(s.adders) {
+				s.adders[j](a, v)
+			}
+			go func() { _ = s.mp.ForceFlush(ctx); close(secondDone) }()
+			select {
+			case <-secondDone:
+			case <-time.After(2 * time.Millisecond):
+			}
+			close(g.release)
+			<-firstDone
+			<-secondDone
+			s.prods[r].set(nil)
+			s.mu.Lock()
+			s.seqStamps = nil
+			s.mu.Unlock()
+		}
+		i := -1
+		for _, op := range ops {
+			i++ // index in the EXPANDED history (ovltf / ovlff count as three operations: first, add, flush)
 			s.mu.Lock()
 			s.stamp = i
 			s.mu.Unlock()
 			switch op[0] {
+			case "ovltf", "ovlff":
+				r, j, a := atoi(op[1]), atoi(op[2]), atoi(op[3])
+				v, _ := strconv.ParseInt(op[4], 10, 64)
+				alive := r < len(s.readers) && s.ticks[r] != nil && !s.down[r] && s.prods[r] != nil
+				switch {
+				case alive && op[0] == "ovltf":
+					overlapped(i, r, func() {
+						if st := s.tickStatus(r); st != "ok" {
+							status(i, r, st)
+						}
+					}, j, a, v)
+				case alive:
+					overlapped(i, r, func() { _ = s.mp.ForceFlush(ctx) }, j, a, v)
+				default:
+					// not applicable: the same operations one after the other
+					if op[0] == "ovltf" {
+						if r < len(s.readers) && s.ticks[r] != nil && !s.down[r] {
+							if st := s.tickStatus(r); st != "ok" {
+								status(i, r, st)
+							}
+						}
+					} else {
+						_ = s.mp.ForceFlush(ctx)
+					}
+					if j < len(s.adders) {
+						s.adders[j](a, v)
+					}
+					s.mu.Lock()
+					s.stamp = i + 2
+					s.mu.Unlock()
+					_ = s.mp.ForceFlush(ctx)
+				}
+				i += 2
+			case "shutslow":
+				// Shutdown with the caller's OWN generous deadline (ctx: 60 s) against an exporter that is slower than the
+				// reader's timeout (+to: 40 ms): the caller's deadline has priority, so the final payload is exported. The
+				// gated exporter gives up only when ITS context ends; the pause below makes it "slow", it does not decide
+				// the verdict on this tree (the context it gets lives for 60 s).
+				var g *c02Gate
+				for r := range s.readers {
+					if s.exps[r] != nil && !s.down[r] && cfg.to && g == nil {
+						g = c02NewGate()
+						s.mu.Lock()
+						s.exps[r].gate = g
+						s.mu.Unlock()
+					}
+				}
+				done := make(chan struct{})
+				go func() { _ = s.mp.Shutdown(ctx); close(done) }()
+				if g != nil {
+					select {
+					case <-g.parked:
+						select {
+						case <-done: // the exporter's context ended before the release
+						case <-time.After(2*c02ShortTimeout + 20*time.Millisecond):
+						}
+						close(g.release)
+					case <-done:
+					}
+				}
+				<-done
+				for r := range s.down {
+					s.down[r] = true
+				}
 			case "add":
 				v, _ := strconv.ParseInt(op[3], 10, 64)
 				if j := atoi(op[1]); j < len(s.adders) {
@@ -196,6 +299,87 @@ func TestVerifC02Seq(t *testing.T) {
 			}
 		}
 		rec(nil, 0)
+	}
+
+	// forced scripts: a FIXED number in every run, whatever the seed (seeded C02-3 / C02-7 / C02-8)
+	{
+		nForced, nSlow := 40, 10
+		if os_exhaustive() {
+			nForced, nSlow = 200, 30
+		}
+		if n < 200 {
+			nForced, nSlow = n/5, n/20
+		}
+		kinds := []string{"ic", "fc", "iu", "fu"}
+		for c := 0; c < nForced; c++ {
+			// a periodic reader (mostly cumulative: an inverted export order then shows as a decreasing total) among 0-2 manual ones
+			rs := []string{vPick(r, []string{"pcc", "pcc", "pcc", "pcd", "pdc", "pdd"})}
+			for k := r.Intn(3); k > 0; k-- {
+				m := "m" + vPick(r, []string{"d", "c"}) + vPick(r, []string{"d", "c"})
+				if r.Bool() {
+					rs = append(rs, m)
+				} else {
+					rs = append([]string{m}, rs...)
+				}
+			}
+			pr := 0
+			for k, x := range rs {
+				if x[0] == 'p' {
+					pr = k
+				}
+			}
+			var is []string
+			for k := 1 + r.Intn(3); k > 0; k-- {
+				is = append(is, vPick(r, kinds))
+			}
+			cfg := c02ParseCfg(strings.Join(rs, ","), strings.Join(is, ","))
+			add := func() []string {
+				return []string{"add", strconv.Itoa(r.Intn(len(is))), strconv.Itoa(1 + r.Intn(2)), strconv.Itoa(1 + r.Intn(200))}
+			}
+			var ops [][]string
+			for k := 2 + r.Intn(4); k > 0; k-- {
+				ops = append(ops, add())
+			}
+			for k := 2 + r.Intn(4); k > 0; k-- {
+				a := add()
+				ops = append(ops, []string{vPick(r, []string{"ovltf", "ovlff"}), strconv.Itoa(pr), a[1], a[2], a[3]})
+				switch r.Intn(4) {
+				case 0:
+					ops = append(ops, add())
+				case 1:
+					ops = append(ops, []string{"tick", strconv.Itoa(pr)})
+				case 2:
+					ops = append(ops, []string{"col", strconv.Itoa(r.Intn(len(rs)))})
+				}
+			}
+			for k := range rs {
+				ops = append(ops, []string{"col", strconv.Itoa(k)})
+			}
+			run("forced", cfg, ops)
+		}
+		for c := 0; c < nSlow; c++ {
+			rs := []string{vPick(r, []string{"pdd", "pcc", "pdc"})}
+			if r.Bool() {
+				rs = append(rs, "m"+vPick(r, []string{"d", "c"})+vPick(r, []string{"d", "c"}))
+			}
+			var is []string
+			for k := 1 + r.Intn(2); k > 0; k-- {
+				is = append(is, vPick(r, kinds))
+			}
+			cfg := c02ParseCfg(strings.Join(rs, ","), strings.Join(is, ",")+"+to")
+			var ops [][]string
+			for k := 2 + r.Intn(4); k > 0; k-- {
+				ops = append(ops, []string{"add", strconv.Itoa(r.Intn(len(is))), strconv.Itoa(1 + r.Intn(2)), strconv.Itoa(1 + r.Intn(200))})
+				if r.Intn(3) == 0 {
+					ops = append(ops, []string{"tick", "0"})
+				}
+			}
+			ops = append(ops, []string{"shutslow"})
+			for k := range rs {
+				ops = append(ops, []string{"col", strconv.Itoa(k)})
+			}
+			run("shutslow", cfg, ops)
+		}
 	}
 
 	temps := []string{"d", "c"}
